@@ -22,7 +22,7 @@ pub static DEF: PropDef = PropDef {
         "pre-order is checked for: same set as post-order, root first, every other item preceded by one of its parents",
     ],
     shards: (16, 64),
-    budget_ms: (5_000, 20_000),
+    budget_ms: (60_000, 180_000),
 };
 
 #[derive(Debug)]
